@@ -1532,3 +1532,72 @@ mod test {
         }
     }
 }
+
+/// Verification shim (cfg-gated, additive): crate-visible forwarding wrappers around the
+/// module-private window search functions and their `Cache`.  No logic of its own.
+#[cfg(eigerco_lumina_verif)]
+pub(crate) mod verif_shim {
+    use super::*;
+
+    pub(crate) struct CacheHandle(Cache);
+
+    impl CacheHandle {
+        pub(crate) fn new() -> CacheHandle {
+            CacheHandle(Cache::default())
+        }
+
+        /// Field-by-field copy (`Cache` itself is not `Clone`).
+        pub(crate) fn duplicate(&self) -> CacheHandle {
+            CacheHandle(Cache {
+                updated_at: self.0.updated_at,
+                after_pruning_window: self.0.after_pruning_window,
+                after_sampling_window: self.0.after_sampling_window,
+                block_info: self.0.block_info.clone(),
+                keep_block_info: self.0.keep_block_info.clone(),
+            })
+        }
+
+        pub(crate) fn cached_heights(&self) -> Vec<u64> {
+            let mut v: Vec<u64> = self.0.block_info.keys().copied().collect();
+            v.sort_unstable();
+            v
+        }
+    }
+
+    pub(crate) async fn find<S: Store>(
+        store: &S,
+        stored_headers: &BlockRanges,
+        cutoff: &Time,
+        prev_after_window: Option<u64>,
+        cache: &mut CacheHandle,
+    ) -> Result<Option<u64>> {
+        find_height_after_window(store, stored_headers, cutoff, prev_after_window, &mut cache.0)
+            .await
+    }
+
+    pub(crate) async fn find_fast<S: Store>(
+        store: &S,
+        stored_headers: &BlockRanges,
+        cutoff: &Time,
+        prev_after_window: Option<u64>,
+        cache: &mut CacheHandle,
+    ) -> Result<Option<Option<u64>>> {
+        find_height_after_window_fast(
+            store,
+            stored_headers,
+            cutoff,
+            prev_after_window,
+            &mut cache.0,
+        )
+        .await
+    }
+
+    pub(crate) async fn find_slow<S: Store>(
+        store: &S,
+        stored_headers: &BlockRanges,
+        cutoff: &Time,
+        cache: &mut CacheHandle,
+    ) -> Result<Option<u64>> {
+        find_height_after_window_slow(store, stored_headers, cutoff, &mut cache.0).await
+    }
+}
